@@ -599,14 +599,13 @@ fn model_steps(steps: &[StepRec]) -> Vec<(String, String)> {
     out
 }
 
-fn obs_t(o: &Obs) -> String {
-    let tabs: Vec<String> = o.tables.iter().map(|(t, r)| format!("({}, {})", t, match r {
+fn img_t(o: &Obs) -> String {
+    let tabs: Vec<String> = o.tables.iter().map(|(t, r)| format!("CT {} {}", t, match r {
         None => "None".to_string(),
-        Some(rows) => format!("Some [{}]", rows.iter().map(|x| format!("({}, {})", zt(x.0), zt(x.1))).collect::<Vec<_>>().join("; ")),
+        Some(rows) => format!("(Some [{}])", rows.iter().map(|x| format!("R2 {} {}", zt(x.0), zt(x.1))).collect::<Vec<_>>().join("; ")),
     })).collect();
-    format!("CObs {} {} {} {} [{}] {} [{}]", o.step, if o.j == usize::MAX { "(-1)".to_string() } else { o.j.to_string() },
-        cbool(o.mode == 'P'), o.open, tabs.join("; "), cbool(o.probe_ok),
-        o.pages.iter().map(|x| format!("({}, {}, {})", zt(x.0), zt(x.1), zt(x.2))).collect::<Vec<_>>().join("; "))
+    format!("CImg {} [{}] {} [{}]", o.open, tabs.join("; "), cbool(o.probe_ok),
+        o.pages.iter().map(|x| format!("R3 {} {} {}", zt(x.0), zt(x.1), zt(x.2))).collect::<Vec<_>>().join("; "))
 }
 
 fn case_term(r: &RunOut) -> (String, usize) {
@@ -614,9 +613,17 @@ fn case_term(r: &RunOut) -> (String, usize) {
     let n_ok = r.steps.iter().position(|s| !s.ok).unwrap_or(r.steps.len());
     let steps = &r.steps[..n_ok];
     let ms = model_steps(steps);
-    let st: Vec<String> = steps.iter().zip(ms.iter()).map(|(s, (l, o))| format!("({}, {}, [{}])", l, o, s.phys.iter().map(phys_t).collect::<Vec<_>>().join("; "))).collect();
-    let ob: Vec<String> = r.obs.iter().filter(|o| o.step < n_ok).map(obs_t).collect();
-    (format!("Case [{}]\n    [{}]", st.join(";\n    "), ob.join(";\n     ")), n_ok)
+    let st: Vec<String> = steps.iter().zip(ms.iter()).map(|(s, (l, o))| format!("CS ({}) ({}) [{}]", l, o, s.phys.iter().map(phys_t).collect::<Vec<_>>().join("; "))).collect();
+    // distinct reopened images, referenced by the crash points
+    let mut imgs: Vec<String> = vec![];
+    let mut idx: HashMap<String, usize> = HashMap::new();
+    let mut pts: Vec<String> = vec![];
+    for o in r.obs.iter().filter(|o| o.step < n_ok) {
+        let t = img_t(o);
+        let k = *idx.entry(t.clone()).or_insert_with(|| { imgs.push(t); imgs.len() - 1 });
+        pts.push(format!("CP {} {} {} {}", o.step, if o.j == usize::MAX { "(-1)".to_string() } else { o.j.to_string() }, cbool(o.mode == 'P'), k));
+    }
+    (format!("Case [{}]\n    [{}]\n    [{}]", st.join(";\n    "), imgs.join(";\n     "), pts.join("; ")), n_ok)
 }
 
 // ------------------------------------------------------------------ row-level oracle (Rust port of c01_ok / c02_ok of the Corr files)
